@@ -13,8 +13,10 @@
    C10: floor / ceil / round by their defining inequalities (ModArith.QFloor ...).        *)
 EXTENDS Lexer, Grammar, Literal, UnitWords
 
-CONSTANT ZeroPowEarlyExit   \* as pinned: pow() returned the base for a zero base before looking
+CONSTANT ZeroPowEarlyExit,  \* as pinned: pow() returned the base for a zero base before looking
                             \* at the exponent's sign (0 ^ -1 = 0).  FALSE = repaired.
+         Temperature        \* TRUE: quantities on offset scales (degC, degF) are decided (C09);
+                            \* FALSE: they are outside what this module decides ("ood")
 
 \* A value, SI-normalised:
 \*   si   residues of the quantity expressed in SI base units  (= number * Scale(unit))
@@ -24,8 +26,10 @@ CONSTANT ZeroPowEarlyExit   \* as pinned: pow() returned the base for a zero bas
 \*   q    the number *as displayed in u*, exact, when small (needed where a function is not
 \*        a field operation: integer exponents, floor / ceil / round)
 \*   free TRUE when u is not determined (then u = NoUnit as a placeholder)
-Val(si, dims, u, q) == [k |-> "val", v |-> [si |-> si, dims |-> dims, u |-> u, free |-> FALSE, q |-> q]]
-FreeVal(si, dims) == [k |-> "val", v |-> [si |-> si, dims |-> dims, u |-> NoUnit, free |-> TRUE, q |-> Unknown]]
+\*   opt  TRUE when the tool may also refuse (an offset scale used as an interval, C09)
+Val(si, dims, u, q) == [k |-> "val", v |-> [si |-> si, dims |-> dims, u |-> u, free |-> FALSE, q |-> q, opt |-> FALSE]]
+FreeVal(si, dims) == [k |-> "val", v |-> [si |-> si, dims |-> dims, u |-> NoUnit, free |-> TRUE, q |-> Unknown, opt |-> FALSE]]
+Opt(x) == IF x.k = "val" THEN [x EXCEPT !.v.opt = TRUE] ELSE x
 Dz == [k |-> "dz"]
 Err == [k |-> "err"]
 Ood == [k |-> "ood"]
@@ -54,6 +58,15 @@ LitVal(chars) ==
 \* ---- zero test: exact when the small rational is known, otherwise "zero for all four primes"
 \* (the harness confirms exactly before that can become an alarm)
 IsZero(v) == IF Known(v.q) THEN v.q[1] = 0 ELSE RZero(v.si)
+
+\* ---- temperature scales (C09).  A value on an offset scale is kept like any other quantity:
+\* si = number * Scale(unit) with the scale's *interval* factor (1 for degC, 5/9 for degF); its absolute
+\* temperature in kelvin adds the zero point of the scale.   K = C + 273.15,  C = (F - 32) * 5/9.
+Off(v) == ~v.free /\ HasOffset(v.u)
+AloneScale(u) == /\ Cardinality(DOMAIN u) = 1
+                 /\ \A k \in DOMAIN u : u[k].pw = 1 /\ k \in ({"Kelvin"} \cup UOffsetKeys)
+ZeroPoint(u) == LET k == CHOOSE k \in DOMAIN u : TRUE IN IF k \in UOffsetKeys THEN UOffsetR(k) ELSE RInt(0)
+AbsK(v) == RAdd(v.si, ZeroPoint(v.u))
 
 \* ---- builtins on exact small values; the unit of the argument is carried through
 Pow10Q(n) == QPow(<<10, 1>>, n)
@@ -87,12 +100,13 @@ ApplyPow(b, e) ==
   ELSE IF ~QIsInt(e.q) THEN Err
   ELSE LET n == e.q[1] IN
        IF n > 99 \/ n < -99 THEN Ood
-       ELSE IF ~b.free /\ HasOffset(b.u) THEN Ood
-       ELSE LET d == DimScale(b.dims, n) IN
-            IF n = 0 THEN Val(RInt(1), Dim0, NoUnit, <<1, 1>>)
+       ELSE IF Off(b) /\ ~Temperature THEN Ood
+       ELSE LET d == DimScale(b.dims, n)
+                M(x) == IF Off(b) THEN Opt(x) ELSE x IN       \* a power of an offset scale: refused, or an interval
+            IF n = 0 THEN M(Val(RInt(1), Dim0, NoUnit, <<1, 1>>))
             ELSE IF IsZero(b) THEN (IF n < 0 /\ ~ZeroPowEarlyExit THEN Dz
-                                    ELSE IF b.free THEN FreeVal(RInt(0), d) ELSE Val(RInt(0), d, UPow(b.u, n), <<0, 1>>))
-            ELSE IF b.free THEN FreeVal(RPow(b.si, n), d) ELSE Val(RPow(b.si, n), d, UPow(b.u, n), QPow(b.q, n))
+                                    ELSE IF b.free THEN FreeVal(RInt(0), d) ELSE M(Val(RInt(0), d, UPow(b.u, n), <<0, 1>>)))
+            ELSE IF b.free THEN FreeVal(RPow(b.si, n), d) ELSE M(Val(RPow(b.si, n), d, UPow(b.u, n), QPow(b.q, n)))
 
 \* addition / subtraction: sgn = 1 / -1
 AddSub(a, b, sgn) ==
@@ -105,7 +119,10 @@ AddSub(a, b, sgn) ==
        ELSE IF a.dims # b.dims THEN Err
        ELSE IF a.free THEN FreeVal(IF sgn = 1 THEN RAdd(a.si, b.si) ELSE RSub(a.si, b.si), a.dims)
        ELSE Val(IF sgn = 1 THEN RAdd(a.si, b.si) ELSE RSub(a.si, b.si), a.dims, a.u, Unknown)
-  ELSE LET c == Compatible(a.u, b.u) IN
+  ELSE LET c0 == Compatible(a.u, b.u)
+           \* offset scales: the same unit on both sides (or a plain number) is ordinary arithmetic on the
+           \* numbers; mixing scales in a sum is not specified
+           c == IF c0 = "ood" /\ Temperature /\ (a.u = b.u) THEN "yes" ELSE c0 IN
        IF c = "ood" THEN Ood ELSE IF c = "no" THEN Err
        ELSE IF Plain(a) /\ Plain(b) THEN
             Quantity(IF sgn = 1 THEN RAdd(a.si, b.si) ELSE RSub(a.si, b.si), IF sgn = 1 THEN QAdd(a.q, b.q) ELSE QSub(a.q, b.q), NoUnit)
@@ -119,28 +136,44 @@ AddSub(a, b, sgn) ==
                 IF a.u = b.u THEN (IF sgn = 1 THEN QAdd(a.q, b.q) ELSE QSub(a.q, b.q)) ELSE Unknown)
 
 MulDiv(a, b, n) ==     \* n = 1: a * b, n = -1: a / b
-  IF (~a.free /\ HasOffset(a.u)) \/ (~b.free /\ HasOffset(b.u)) THEN Ood
+  IF (Off(a) \/ Off(b)) /\ ~Temperature THEN Ood
   ELSE IF n = -1 /\ IsZero(b) THEN Dz
   ELSE LET si == IF n = 1 THEN RMul(a.si, b.si) ELSE RDiv(a.si, b.si)
            q == IF n = 1 THEN QMul(a.q, b.q) ELSE QDiv(a.q, b.q)
-           d == DimAdd(a.dims, b.dims, n) IN
-       IF Plain(b) THEN (IF a.free THEN FreeVal(si, d) ELSE Val(si, d, a.u, q))
-       ELSE IF Plain(a) THEN (IF b.free THEN FreeVal(si, d) ELSE Val(si, d, UPow(b.u, n), q))
-       ELSE FreeVal(si, d)
+           d == DimAdd(a.dims, b.dims, n)
+           \* an offset scale multiplied / divided: refused, or the degree counts as an interval
+           M(x) == IF Off(a) \/ Off(b) THEN Opt(x) ELSE x IN
+       IF Plain(b) THEN (IF a.free THEN FreeVal(si, d) ELSE M(Val(si, d, a.u, q)))
+       ELSE IF Plain(a) THEN (IF b.free THEN FreeVal(si, d) ELSE M(Val(si, d, UPow(b.u, n), q)))
+       ELSE M(FreeVal(si, d))
 
-Apply(op, a, b) ==
+Apply0(op, a, b) ==
   CASE op = "+" -> AddSub(a, b, 1)
     [] op = "-" -> AddSub(a, b, -1)
     [] op = "*" -> MulDiv(a, b, 1)
     [] op = "/" -> MulDiv(a, b, -1)
     [] op = "^" -> ApplyPow(a, b)
+\* an operand the tool was free to refuse makes the result one it is free to refuse
+Apply(op, a, b) == IF a.opt \/ b.opt THEN Opt(Apply0(op, a, b)) ELSE Apply0(op, a, b)
 
-Cast(a, u) ==      \* a to u
-  IF a.free THEN (IF HasOffset(u) \/ a.dims = Dim0 THEN Ood ELSE IF a.dims # Dims(u) THEN Err ELSE Val(a.si, a.dims, u, Unknown))
+\* a conversion in which an offset scale takes part (C09)
+TempCast(a, u) ==
+  IF Plain(a) THEN Val(RMul(a.si, Scale(u)), Dims(u), u, a.q)
+  ELSE IF a.dims # Dims(u) THEN Err
+  ELSE IF a.free THEN (IF a.dims = Dim0 THEN Ood ELSE Opt(Val(a.si, a.dims, u, Unknown)))
+  \* both sides are a temperature scale standing alone with power one: the defining affine formulas
+  ELSE IF AloneScale(a.u) /\ AloneScale(u) THEN Val(RSub(AbsK(a), ZeroPoint(u)), a.dims, u, IF a.u = u THEN a.q ELSE Unknown)
+  \* anywhere else (squared, inverted, multiplied with other units): refused, or the degree is an interval --
+  \* the zero point is never added
+  ELSE Opt(Val(a.si, a.dims, u, Unknown))
+Cast0(a, u) ==      \* a to u
+  IF Temperature /\ (Off(a) \/ HasOffset(u)) THEN TempCast(a, u)
+  ELSE IF a.free THEN (IF HasOffset(u) \/ a.dims = Dim0 THEN Ood ELSE IF a.dims # Dims(u) THEN Err ELSE Val(a.si, a.dims, u, Unknown))
   ELSE LET c == Compatible(u, a.u) IN
        IF c = "ood" THEN Ood ELSE IF c = "no" THEN Err
        ELSE IF Plain(a) THEN Val(RMul(a.si, Scale(u)), Dims(u), u, a.q)      \* a plain number takes the unit
        ELSE Val(a.si, a.dims, u, IF a.u = u THEN a.q ELSE Unknown)
+Cast(a, u) == IF a.opt THEN Opt(Cast0(a, u)) ELSE Cast0(a, u)
 
 \* ---- the tree
 TokKinds(toks) == TLCEval([i \in 1..Len(toks) |-> toks[i].k])
@@ -165,7 +198,7 @@ EvalAst(s, toks, ast) ==
                             u == UnitOf(s, toks, ast.u[1], ast.u[2]) IN
                         IF ~IsVal(x) THEN x
                         ELSE IF u.k = "ood" THEN Ood ELSE IF u.k = "err" THEN Err
-                        ELSE IF HasOffset(u.c) THEN Ood
+                        ELSE IF HasOffset(u.c) /\ ~Temperature THEN Ood
                         ELSE Quantity(x.v.si, x.v.q, u.c)
     [] ast.t = "bin" -> LET r == EvalAst(s, toks, ast.r)       \* the tool evaluates the right operand first
                             l == EvalAst(s, toks, ast.l) IN
